@@ -123,6 +123,27 @@ func badLiteral(r *fw.Rand, lf *gen.Leaf) (string, string) {
 		return "maybe", "unparsable-bool"
 	case reflect.Complex64:
 		return "(1e39+0i)", "complex64-overflow"
+	case reflect.Map:
+		if t.Elem().Kind() != reflect.Int {
+			return "", ""
+		}
+		// entries whose value text is not an int: missing (the empty string is not a number, wherever the entry
+		// stands in the list), unparsable, out of range
+		switch r.Intn(5) {
+		case 0:
+			return `"a":1,"b"`, "map-entry-without-a-number-after-a-complete-entry"
+		case 1:
+			return `"a":1,"b":`, "map-entry-without-a-number-after-a-complete-entry"
+		case 2:
+			return `"b","a":1`, "map-entry-without-a-number-first"
+		case 3:
+			return `"a":1,"b":x2`, "map-entry-unparsable-int"
+		}
+		return `"a":1,"b":9223372036854775808`, "map-entry-int-max+1"
+	case reflect.Slice:
+		if t.Elem().Kind() == reflect.Int16 || t.Elem().Kind() == reflect.Int {
+			return "1,2x,3", "slice-element-unparsable-int"
+		}
 	}
 	_ = math.MaxInt8
 	return "", ""
